@@ -18,7 +18,7 @@
    IMPLEMENTATION-SHAPED LAYER (one action per code step)
      Pick, PickRecs  choose the input: enzyme, reverse, concatenate, text layout; then 1..2 records
      Parse     313-357  "\n".join(files)[1:].split("\n>"); splitlines; name = header up to the first space
-     StartProt 381-384  sites = [0] + match ends + [len] (duplicates kept), new_seq = list(seq)
+     StartProt 381-384  sites = [0] + match ends + [len] (duplicates kept, computed once per protein), new_seq = list(seq)
      SkipPep   385-396  pep_len = (next site - 1) - (site + 1) <= 1
      MakePerm  399-410  first peptide of this LENGTH in the whole call: flip(arange) or a random permutation
      ApplyPerm 412      new_seq[start:end] = [new_seq[i + start] for i in perms[pep_len]]
@@ -120,9 +120,9 @@ Prefix == <<100, 95>>                                       \* "d_"
 Name(j) == IF j = 1 THEN <<97>> ELSE <<98, 124, 120>>       \* "a", "b|x"
 Desc == <<100, 32, 101>>                                    \* "d e" (contains a space itself)
 
-VARIABLES inp, pc, prots, pi, k, perms, cur, decoys, text, back,
+VARIABLES inp, pc, prots, pi, k, sites, perms, cur, decoys, text, back,
           napply     \* history: number of ApplyPerm steps (to witness that a permutation is re-used)
-vars == <<inp, pc, prots, pi, k, perms, cur, decoys, text, back, napply>>
+vars == <<inp, pc, prots, pi, k, sites, perms, cur, decoys, text, back, napply>>
 
 Seqs(n) == UNION {[1..m -> Alphabet] : m \in 0..n}
 RecLists == {<<<<Name(1), s>>>> : s \in Seqs(MaxLen)}
@@ -149,48 +149,48 @@ Reader(files) == LET raw == ReadFiles(files) IN [i \in 1..Len(raw) |-> ParseProt
 WriteText(recs) == JoinWith([i \in 1..Len(recs) |->
                                 <<GT>> \o recs[i][1] \o <<NL>> \o JoinWith(Chunks(recs[i][2], Width), <<NL>>)], <<NL>>)
 
-Init == /\ pc = "pick" /\ inp = <<>> /\ prots = <<>> /\ pi = 0 /\ k = 0 /\ perms = <<>> /\ cur = <<>>
+Init == /\ pc = "pick" /\ inp = <<>> /\ prots = <<>> /\ pi = 0 /\ k = 0 /\ sites = <<>> /\ perms = <<>> /\ cur = <<>>
         /\ decoys = <<>> /\ text = <<>> /\ back = <<>> /\ napply = 0
 \* two steps only so that TLC's workers share the fan-out (successors of one state are computed by one worker)
 Pick == /\ pc = "pick" /\ pc' = "pickrecs"
         /\ inp' \in [recs : {<<>>}, enz : Enzymes, reverse : Reverses, concat : Concats, rend : Renderings]
-        /\ UNCHANGED <<prots, pi, k, perms, cur, decoys, text, back, napply>>
+        /\ UNCHANGED <<sites, prots, pi, k, perms, cur, decoys, text, back, napply>>
 PickRecs == /\ pc = "pickrecs" /\ pc' = "parse"
             /\ \E r \in RecLists : inp' = [inp EXCEPT !.recs = r]
-            /\ UNCHANGED <<prots, pi, k, perms, cur, decoys, text, back, napply>>
+            /\ UNCHANGED <<sites, prots, pi, k, perms, cur, decoys, text, back, napply>>
 Parse == /\ pc = "parse" /\ prots' = Reader(InputFiles) /\ pi' = 1 /\ pc' = "prot"            \* 233-234
-         /\ UNCHANGED <<inp, k, perms, cur, decoys, text, back, napply>>
+         /\ UNCHANGED <<sites, inp, k, perms, cur, decoys, text, back, napply>>
 
 \* 437-442: sites = [0] + [m.end() ...] + [len(sequence)], duplicates kept
 ImplSites(s, enz) == <<0>> \o SetToSortSeq({p \in 1..Len(s) : CutAfter(s, enz, p)}, <) \o <<Len(s)>>
-Sites == ImplSites(prots[pi][2], inp.enz)
-StartProt == /\ pc = "prot" /\ pi <= Len(prots) /\ cur' = prots[pi][2] /\ k' = 1 /\ pc' = "pep"   \* 381-385
+StartProt == /\ pc = "prot" /\ pi <= Len(prots) /\ pc' = "pep"                                 \* 381-385
+             /\ sites' = ImplSites(prots[pi][2], inp.enz) /\ cur' = prots[pi][2] /\ k' = 1
              /\ UNCHANGED <<inp, prots, pi, perms, decoys, text, back, napply>>
 \* python 0-based slice [Start, End) of new_seq; k = start_idx + 1
-Start == Sites[k] + 1                                                                         \* 391
-End == IF Mut_MoveLast THEN Sites[k + 1] ELSE Sites[k + 1] - 1                               \* 392
+Start == sites[k] + 1                                                                         \* 391
+End == IF Mut_MoveLast THEN sites[k + 1] ELSE sites[k + 1] - 1                               \* 392
 PepLen == End - Start                                                                         \* 393
-InLoop == pc = "pep" /\ k + 1 <= Len(Sites)                                                   \* 385-388
+InLoop == pc = "pep" /\ k + 1 <= Len(sites)                                                   \* 385-388
 SkipPep == /\ InLoop /\ PepLen <= 1 /\ k' = k + 1                                             \* 395-396
-           /\ UNCHANGED <<inp, pc, prots, pi, perms, cur, decoys, text, back, napply>>
+           /\ UNCHANGED <<sites, inp, pc, prots, pi, perms, cur, decoys, text, back, napply>>
 Flip(n) == [i \in 0..(n - 1) |-> n - 1 - i]                                                   \* 401
 MakePerm == /\ InLoop /\ PepLen > 1 /\ PepLen \notin DOMAIN perms                             \* 399-410
             /\ \E p \in (IF inp.reverse THEN {Flip(PepLen)} ELSE Permutations(0..(PepLen - 1))) :
                   perms' = perms @@ (PepLen :> p)
-            /\ UNCHANGED <<inp, pc, prots, pi, k, cur, decoys, text, back, napply>>
+            /\ UNCHANGED <<sites, inp, pc, prots, pi, k, cur, decoys, text, back, napply>>
 ApplyPerm == /\ InLoop /\ PepLen > 1 /\ PepLen \in DOMAIN perms                               \* 412
              /\ cur' = [j \in 1..Len(cur) |-> IF Start < j /\ j <= End
                                               THEN cur[Start + perms[PepLen][j - Start - 1] + 1] ELSE cur[j]]
              /\ k' = k + 1 /\ napply' = napply + 1
-             /\ UNCHANGED <<inp, pc, prots, pi, perms, decoys, text, back>>
-EndProt == /\ pc = "pep" /\ k + 1 > Len(Sites)                                                \* 414
+             /\ UNCHANGED <<sites, inp, pc, prots, pi, perms, decoys, text, back>>
+EndProt == /\ pc = "pep" /\ k + 1 > Len(sites)                                                \* 414
            /\ decoys' = Append(decoys, <<Prefix \o prots[pi][1], cur>>) /\ pi' = pi + 1 /\ pc' = "prot"
-           /\ UNCHANGED <<inp, prots, k, perms, cur, text, back, napply>>
+           /\ UNCHANGED <<sites, inp, prots, k, perms, cur, text, back, napply>>
 ToWrite == IF inp.concat THEN prots \o decoys ELSE decoys                                     \* 240-243
 Write == /\ pc = "prot" /\ pi > Len(prots) /\ text' = WriteText(ToWrite) /\ pc' = "reread"    \* 249-258
-         /\ UNCHANGED <<inp, prots, pi, k, perms, cur, decoys, back, napply>>
+         /\ UNCHANGED <<sites, inp, prots, pi, k, perms, cur, decoys, back, napply>>
 ReRead == /\ pc = "reread" /\ back' = Reader(<<text>>) /\ pc' = "done"
-          /\ UNCHANGED <<inp, prots, pi, k, perms, cur, decoys, text, napply>>
+          /\ UNCHANGED <<sites, inp, prots, pi, k, perms, cur, decoys, text, napply>>
 Next == Pick \/ PickRecs \/ Parse \/ StartProt \/ SkipPep \/ MakePerm \/ ApplyPerm \/ EndProt \/ Write \/ ReRead
 Spec == Init /\ [][Next]_vars
 
@@ -198,16 +198,17 @@ Spec == Init /\ [][Next]_vars
 Parsed == pc \notin {"pick", "pickrecs", "parse"}
 \* the reader recovers the abstract records from every layout (multi-line, descriptions, several files)
 ParsedOk == Parsed => prots = inp.recs
-\* every finished decoy is a valid decoy of its target (checked as soon as it is appended)
-DecoysValid == Parsed => \A i \in 1..Len(decoys) :
+\* every finished decoy is a valid decoy of its target (checked between proteins: as soon as it is appended)
+DecoysValid == pc = "prot" => \A i \in 1..Len(decoys) :
                   /\ decoys[i][1] = Prefix \o inp.recs[i][1]
                   /\ ValidDecoy(inp.recs[i][2], decoys[i][2], inp.enz, inp.reverse)
 \* implementation-level (stronger than the statement): each peptide keeps its own residues
-PeptideLocal == Parsed => \A i \in 1..Len(decoys) : LET t == inp.recs[i][2]  d == decoys[i][2] IN
+PeptideLocal == pc = "prot" => \A i \in 1..Len(decoys) : LET t == inp.recs[i][2]  d == decoys[i][2] IN
                   \A ab \in Peptides(t, inp.enz) :
                      SameComposition(SubSeq(t, ab[1] + 1, ab[2]), SubSeq(d, ab[1] + 1, ab[2]))
 \* one permutation per peptide length for the whole call
-PermsOk == \A n \in DOMAIN perms : n > 1 /\ perms[n] \in Permutations(0..(n - 1))
+PermsOk == pc = "pep" => \A n \in DOMAIN perms : /\ n > 1 /\ DOMAIN perms[n] = 0..(n - 1)
+                                            /\ {perms[n][i] : i \in 0..(n - 1)} = 0..(n - 1)
 \* reachability witness (expected to be VIOLATED in Decoys_share.cfg): a stored permutation is never re-used
 NeverShared == napply <= Cardinality(DOMAIN perms)
 \* re-read(write(x)) = x
@@ -221,7 +222,7 @@ Hence == (pc = "prot" /\ pi = 1) => \A i \in 1..Len(inp.recs) : LET t == inp.rec
                \A p \in Permutations(1..Len(t)) : LET d == [j \in 1..Len(t) |-> t[p[j]]] IN
                   DecoyCore(t, d, inp.enz) => SameSites(t, d, inp.enz)
 \* NOT claimed (violated for [KR](?!P): "AKPCR" -> "APKCR"): sites identical for every enzyme
-SitesAnyEnzyme == Parsed => \A i \in 1..Len(decoys) : SameSites(inp.recs[i][2], decoys[i][2], inp.enz)
+SitesAnyEnzyme == pc = "prot" => \A i \in 1..Len(decoys) : SameSites(inp.recs[i][2], decoys[i][2], inp.enz)
 
 \* behaviour generation: one case per chosen input
 EmitCase == pc = "parse" => PrintT(<<"CASE", [i \in 1..Len(inp.recs) |-> inp.recs[i][2]], inp.enz, inp.reverse, inp.concat>>)
